@@ -9,7 +9,7 @@ use std::rc::Rc;
 pub const DEF: PropDef = PropDef {
     id: "C02",
     level: "exploration",
-    rule: "(text, expected tree) pairs from a reference grammar that never calls the rrss parser: (1) every chain of 2 and 3 binary operators over 18 operator spellings with the tree from the precedence ladder; (2) unary prefixes in every operand position; (3) list operands at every precedence level (single operator, last-operator-takes-the-list, elements that are a higher- or lower-precedence operation, both separators); (4) primaries: subscript chains, calls with 1..3 arguments x 5 separators x argument shapes, nested calls, roll, literals of every kind, 10 numeral spellings, 7 string spellings, the three name kinds; (5) all statement kinds with every slot filled from a 14-shape expression set, in three contexts (top level, inside if, inside a function body); (6) every block-nesting shape over {simple, if, if-else, while, until, function} up to the node bound, closed by blank lines or by end of input; (7) on every base program of (4)-(6): every single departure from canonical spelling (each keyword x every alias, 3 case variants and all 2^n casings for n<=4; each gap x 20 noise kinds; trailing punctuation; missing final newline), (thorough) all pairs of departures on the statement corpus; oracle: RAst(parse(text)) == expected; non-trivial = all cases (each compares a full tree); distinct = distinct text",
+    rule: "(text, expected tree) pairs from a reference grammar that never calls the rrss parser: (1) every chain of 2 and 3 binary operators over 18 operator spellings with the tree from the precedence ladder; (2) unary prefixes in every operand position; (3) list operands at every precedence level (single operator, last-operator-takes-the-list, elements that are a higher- or lower-precedence operation, both separators); (4) primaries: subscript chains, calls with 1..3 arguments x 5 separators x argument shapes, nested calls, roll, literals of every kind, 10 numeral spellings, 7 string spellings, the three name kinds; (5) all statement kinds with every slot filled from a 14-shape expression set, in three contexts (top level, inside if, inside a function body); (6) every block-nesting shape over {simple, if, if-else, while, until, function} up to the node bound, closed by blank lines or by end of input; (7) on every base program of (4)-(6): every single departure from canonical spelling (each keyword x every alias, 3 case variants and all 2^n casings for n<=4; each gap x 20 noise kinds; trailing punctuation; missing final newline; whole-program respellings: CR LF line ends, tabs or NBSP for every space, all keywords upper / title case, double spaces, blank lines carrying blanks, indentation on every line), (thorough) all pairs of departures on the statement corpus; oracle: RAst(parse(text)) == expected; non-trivial = all cases (each compares a full tree); distinct = distinct text",
     assumptions: &[
         "reference grammar (refmodel/grammar.rs): precedence ladder logical < comparison < term < factor < unary < primary, left-associative folds, the last operator before a comma takes the list, one blank line closes one block, else closes a then-block, an if-else ends a function body",
         "identifier spelling is part of the tree (names are compared as written), so identifier case is varied by C15, not here; poetic literals are content, varied by C11; corners the property does not determine (U-lists, U-emptyblock) are not generated",
@@ -419,6 +419,8 @@ fn statement_cases() -> Vec<Base> {
         v.extend(finish(&[TSB::If(cond.clone(), vec![TSB::Simple(s.clone())], None), TSB::Simple(s_say(pe(num("9"))))]));
         v.extend(finish(&[TSB::If(cond.clone(), vec![TSB::Simple(s_say(pe(num("8"))))], Some(vec![TSB::Simple(s.clone())])), TSB::Simple(s_say(pe(num("9"))))]));
         v.extend(finish(&[TSB::Function("fun".into(), vec!["k".into()], ",", vec![TSB::Simple(s.clone())]), TSB::Simple(s_say(pe(num("9"))))]));
+        v.extend(finish(&[TSB::While(cond.clone(), vec![TSB::Simple(s_say(pe(num("8")))), TSB::Simple(s.clone())]), TSB::Simple(s_say(pe(num("9"))))]));
+        v.extend(finish(&[TSB::Until(cond.clone(), vec![TSB::If(cond.clone(), vec![TSB::Simple(s.clone())], None)]), TSB::Simple(s_say(pe(num("9"))))]));
     }
     // function headers: parameter counts, separators, name kinds are simple here
     for sep in SEPS {
@@ -515,6 +517,9 @@ pub enum Dev {
     Noise(usize, usize),
     TrailingPunct(usize, usize),
     NoFinalNewline,
+    /// whole-program respellings: 0 CR LF line ends, 1 tabs for spaces, 2 NBSP for spaces, 3 all keywords upper case,
+    /// 4 all keywords title case, 5 double spaces everywhere, 6 blank lines carry blanks, 7 indentation on every line
+    Whole(usize),
     Indent(usize, usize),
     SuffixIs(usize, usize),
 }
@@ -637,6 +642,9 @@ pub fn deviations(toks: &[Tk]) -> Vec<Dev> {
     if toks.last().map_or(false, |t| t.s == "\n") && toks.len() >= 2 && toks[toks.len() - 2].s != "\n" {
         v.push(Dev::NoFinalNewline);
     }
+    for k in 0..8 {
+        v.push(Dev::Whole(k));
+    }
     v
 }
 
@@ -657,6 +665,48 @@ pub fn apply_dev(toks: &[Tk], d: &Dev) -> String {
         Dev::NoFinalNewline => {
             t.pop();
             render(&t)
+        }
+        Dev::Whole(k) => {
+            // poetic content (verbatim tokens) is left alone; everything else is respelled
+            let gap = match k {
+                1 => "\t",
+                2 => "\u{a0}",
+                5 => "  ",
+                _ => " ",
+            };
+            if *k == 3 || *k == 4 {
+                for x in t.iter_mut() {
+                    if x.kw.is_some() && !x.verbatim {
+                        if let Some(r) = recase(&x.s, if *k == 3 { 0 } else { 1 }) {
+                            x.s = r;
+                        }
+                    }
+                }
+            }
+            let mut out = String::new();
+            for (i, x) in t.iter().enumerate() {
+                let bol = out.is_empty() || out.ends_with('\n');
+                if x.s == "\n" {
+                    if *k == 6 && bol {
+                        out.push_str(" \t ");
+                    }
+                    // after poetic content the line end is left alone (whether CR belongs to a poetic string is U-crlf)
+                    let after_verbatim = i > 0 && t[i - 1].verbatim;
+                    out.push_str(if *k == 0 && !after_verbatim { "\r\n" } else { "\n" });
+                    continue;
+                }
+                if bol {
+                    if *k == 7 {
+                        out.push_str("\t  ");
+                    }
+                } else if !x.glue {
+                    // inside poetic content the gap is content: keep the single space
+                    let in_verbatim = x.verbatim || (i > 0 && t[i - 1].verbatim);
+                    out.push_str(if in_verbatim { " " } else { gap });
+                }
+                out.push_str(&x.s);
+            }
+            out
         }
         Dev::SuffixIs(i, k) => {
             t[*i].s = SUFFIXES[*k].to_string();
@@ -736,7 +786,7 @@ fn locate(prefix: &[u64], idx: u64) -> (usize, u64) {
 fn dev_pos(d: &Dev) -> Option<usize> {
     match d {
         Dev::Alias(i, _) | Dev::Case(i, _) | Dev::Noise(i, _) | Dev::TrailingPunct(i, _) | Dev::Indent(i, _) | Dev::SuffixIs(i, _) => Some(*i),
-        Dev::NoFinalNewline => None,
+        Dev::NoFinalNewline | Dev::Whole(_) => None,
     }
 }
 
